@@ -212,8 +212,25 @@ func pass1(j job) (res result) {
 				feed(w.R, false, "restart-commit-after-round-interrupt")
 			}
 		}
-		// sync path
-		feed(w.S, true, "sync")
+		// sync path: the syncing node is handed ANOTHER valid version of the commit certificate (a different
+		// +2/3 signer subset than the one the proposer stored and will embed in the next header); several
+		// valid versions of a commit certificate exist in a network, the next block must execute identically
+		altSigners := []int{0, 1, 2, 4}
+		if out.signers != nil {
+			altSigners = nil
+		}
+		if qcAlt, e2 := w.A.Certify(p, 0, altSigners, 0); e2 != nil {
+			res.HarnessErr = "certify (other version): " + e2.Error()
+			return
+		} else if bz, e3 := lib.Marshal(&lib.BlockMessage{ChainId: env.ChainID, BlockAndCertificate: qcAlt, Time: 1_700_000_000_000_000}); e3 != nil {
+			res.HarnessErr = e3.Error()
+			return
+		} else {
+			saved := rec.Msg
+			rec.Msg = bz
+			feed(w.S, true, "sync-with-other-certificate-version")
+			rec.Msg = saved
+		}
 		res.Blocks = append(res.Blocks, rec)
 		if len(ps) > 0 {
 			res.Viols = append(res.Viols, viol(j, i, ps)...)
